@@ -19,7 +19,12 @@ TOL = 1e-9
 
 
 def model(d, temp):
-    if d == 2:
+    if d == "2c":
+        # complex Hermitian, non-diagonal coupling operator (eigenvector matrix not self-adjoint); O^2 = 1/4
+        o = 0.5 * (np.cos(0.7) * M.SX + np.sin(0.7) * M.SY)
+        h = 0.8 * o
+        rho = M.RHO_GEN2
+    elif d == 2:
         o = 0.5 * M.SZ
         h = 0.4 * M.SZ
         rho = M.RHO_GEN2
@@ -116,7 +121,7 @@ def axis_case(args):
 
 def run_bath(tier, seed):
     vio = []
-    pc = [(d, t) for d in (2, 3) for t in (0.0, 0.8)]
+    pc = [(d, t) for d in (2, "2c", 3) for t in (0.0, 0.8)]
     pres = pmap(physics_case, pc, chunksize=1, seed=seed)
     nev = 0
     for c, r in zip(pc, pres):
